@@ -81,6 +81,7 @@ class RoundTrip(Leg):
     quick_n = 30
     thorough_n = 500
     extended_factor = 2
+    escalation_cap = 2
 
     def generate(self, rng, n):
         for i in range(n):
@@ -181,6 +182,7 @@ class StreamEquality(Leg):
     quick_n = 36
     thorough_n = 1200
     extended_factor = 3
+    escalation_cap = 2
 
     def generate(self, rng, n):
         for _ in range(n):
